@@ -348,8 +348,15 @@ func (u *Union) optMerge(mode Mode, req Require) (Cost, Cost, *unionApproach) {
 	if best.none() {
 		return impossible, impossible, nil
 	}
+	cols := best.data.order
+	if u.disjoint != "" && req.use == ReqOrder {
+		// The order may omit columns that are fixed in each source
+		// but to different values, so they are not fixed in the result.
+		// Each source is in req.cols order, so merge by req.cols.
+		cols = req.cols
+	}
 	return best.fixcost, best.varcost,
-		&unionApproach{strat: unionMerge, cols: best.data.order,
+		&unionApproach{strat: unionMerge, cols: cols,
 			req1: best.data.req, req2: best.data.req}
 }
 
@@ -363,6 +370,11 @@ func (u *Union) optMerge(mode Mode, req Require) (Cost, Cost, *unionApproach) {
 // not just a key of each source. Otherwise the same order values can produce
 // distinct rows from the two sources (e.g. when one source has an extra
 // extend column), and Lookup via Select+Get would return more than one row.
+//
+// For ReqGroup the order must also group the union RESULT i.e. with only
+// the union's fixed. A column that is fixed to a different value in each source
+// (disjoint) is not fixed in the result, and merging by an order that omits it
+// would split its groups.
 // When no order qualifies, optMerge returns impossible and the optimizer
 // falls back to wrapping the union in a TempIndex.
 func (u *Union) mergeIndexes(req Require) [][]string {
@@ -375,6 +387,7 @@ func (u *Union) mergeIndexes(req Require) [][]string {
 	keys2 := u.source2.Keys()
 	indexes2 := u.source2.Indexes()
 	needResultKey := req.use == ReqUnique
+	needResultGroup := req.use == ReqGroup
 	var results [][]string
 	for _, idx1 := range indexes1 {
 		for _, idx2 := range indexes2 {
@@ -384,6 +397,7 @@ func (u *Union) mergeIndexes(req Require) [][]string {
 				hasKey(order, keys2, fixed2) &&
 				req.SatisfiedByWithFixed(order, fixed1) &&
 				req.SatisfiedByWithFixed(order, fixed2) &&
+				(!needResultGroup || req.SatisfiedByWithFixed(order, fixed)) &&
 				(!needResultKey || hasKey(order, keys, fixed)) &&
 				!slc.ContainsFn(results, order, slices.Equal) {
 				results = append(results, order)
@@ -395,6 +409,7 @@ func (u *Union) mergeIndexes(req Require) [][]string {
 	for _, key := range commonKeys {
 		if req.SatisfiedByWithFixed(key, fixed1) &&
 			req.SatisfiedByWithFixed(key, fixed2) &&
+			(!needResultGroup || req.SatisfiedByWithFixed(key, fixed)) &&
 			(!needResultKey || hasKey(key, keys, fixed)) &&
 			!slc.ContainsFn(results, key, slices.Equal) {
 			results = append(results, key)
